@@ -238,6 +238,10 @@ void error_handler (const char *err) {
       debug_message_with_location (err);
       dump_trace (g_trace_flag);
 
+      /* we are leaving the error handler for good: do not treat later errors as nested */
+      in_error = 0;
+      in_mudlib_error_handler = 0;
+
       if (current_error_context)
         longjmp (current_error_context->context, 1);
       fatal ("failed longjmp() or no error context for error.");
